@@ -113,12 +113,21 @@ type agentSim struct {
 	ag     *agent.Agent
 	ipc    *agent.AgentIPC
 	lis    *pipeListener
+	logw   io.Writer // the log writer behind the monitor streams
 	nconn  int
 	dials  int
 }
 
 // startAgent starts node 0 of the cluster through the agent.
 func startAgent(r *Run, c *Cluster, authKey string, ac *agent.Config, o NodeOpts) (*agentSim, error) {
+	return startAgentLog(r, c, authKey, ac, o, false)
+}
+
+// startAgentLog is startAgent with the log plumbing of the agent command: when wired is set, what
+// the IPC layer itself logs also goes into the log writer that feeds the monitor streams
+// (Command.setupLoggers builds io.MultiWriter(filtered output, logWriter) the same way), and
+// agentSim.logw is that log writer.
+func startAgentLog(r *Run, c *Cluster, authKey string, ac *agent.Config, o NodeOpts, wired bool) (*agentSim, error) {
 	conf := c.SerfConfig(0, o)
 	if ac == nil {
 		ac = &agent.Config{}
@@ -133,7 +142,13 @@ func startAgent(r *Run, c *Cluster, authKey string, ac *agent.Config, o NodeOpts
 	}
 	c.Adopt(0, ag.Serf(), conf)
 	as := &agentSim{r: r, c: c, ag: ag, lis: newPipeListener()}
-	as.ipc = agent.NewAgentIPC(ag, authKey, as.lis, c.Nodes[0].Log, agent.NewLogWriter(64), false)
+	lw := agent.NewLogWriter(64)
+	var logOut io.Writer = c.Nodes[0].Log
+	if wired {
+		logOut = io.MultiWriter(c.Nodes[0].Log, lw)
+	}
+	as.logw = lw
+	as.ipc = agent.NewAgentIPC(ag, authKey, as.lis, logOut, lw, false)
 	c.BlockDial = func(from, to string) error {
 		as.dials++
 		return nil
